@@ -489,6 +489,36 @@ draw_blank(int canvas_type, uint8_t *canvas, unsigned int rowstride,
 }
 
 /**
+ * @internal
+ * @param size Size of the character.
+ * @param last_column TRUE if the character is in the last column
+ *   to be drawn.
+ *
+ * draw_char() and draw_drcs() draw both halves of a double width or
+ * double size character, i.e. two cells. In the last column of a
+ * region (or page) the right half would be written beyond the canvas
+ * row, so we draw these characters single width there, as
+ * vbi_format_vt_page() does in column 39.
+ */
+static vbi_size
+clip_size(vbi_size size, vbi_bool last_column)
+{
+	if (!last_column)
+		return size;
+
+	switch (size) {
+	case VBI_DOUBLE_WIDTH:
+		return VBI_NORMAL_SIZE;
+	case VBI_DOUBLE_SIZE:
+		return VBI_DOUBLE_HEIGHT;
+	case VBI_DOUBLE_SIZE2:
+		return VBI_DOUBLE_HEIGHT2;
+	default:
+		return size;
+	}
+}
+
+/**
  * @param pg Source vbi_page, see vbi_fetch_cc_page().
  * @param fmt Target format. For now only VBI_PIXFMT_RGBA32_LE (vbi_rgba) permitted.
  * @param canvas Pointer to destination image (currently an array of vbi_rgba), this
@@ -678,7 +708,8 @@ vbi_draw_vt_page_region(vbi_page *pg,
 					if (font)
 						draw_drcs(canvas_type, canvas, rowstride,
 							  (uint8_t *) &pen, ac->drcs_clut_offs,
-							  font, unicode & 0x3F, ac->size);
+							  font, unicode & 0x3F,
+							  clip_size (ac->size, 1 == count));
 					else /* shouldn't happen */
 						draw_blank(canvas_type, canvas, rowstride,
 							   ((canvas_type == 1) ? pen.pal8[0]: pen.rgba[0]),
@@ -693,7 +724,7 @@ vbi_draw_vt_page_region(vbi_page *pg,
 						   unicode_wstfont2 (unicode, ac->italic),
 						   ac->bold,
 						   ac->underline << 9 /* cell row 9 */,
-						   ac->size);
+						   clip_size (ac->size, 1 == count));
 				}
 			}
 
@@ -1172,7 +1203,7 @@ draw_drcs_indexed(uint8_t * canvas, int rowstride, uint8_t * pen,
 }
 
 static void
-draw_row_indexed(vbi_page * pg, vbi_char * ac, uint8_t * canvas, uint8_t * pen,
+draw_row_indexed(vbi_page * pg, vbi_char * row_ac, uint8_t * canvas, uint8_t * pen,
                  int rowstride, vbi_bool conceal, vbi_bool is_cc)
 {
         const int cw = is_cc ? CCW : TCW;
@@ -1182,7 +1213,13 @@ draw_row_indexed(vbi_page * pg, vbi_char * ac, uint8_t * canvas, uint8_t * pen,
 	int column;
         int unicode;
 
-        for (column = 0; column < pg->columns ; canvas += cw, column++, ac++) {
+        for (column = 0; column < pg->columns ; canvas += cw, column++, row_ac++) {
+				/* See clip_size(). */
+				vbi_char clipped = *row_ac;
+				vbi_char *ac = &clipped;
+
+				clipped.size = clip_size (row_ac->size,
+							  column == pg->columns - 1);
 
 				if (ac->size == VBI_OVER_TOP
 				    || ac->size == VBI_OVER_BOTTOM)
